@@ -128,7 +128,7 @@ def split_runs(lines):
     for l in lines:
         if 'reset"' in l:
             j = json.loads(l)
-            if j.get("op") in ("reset", "areset", "greset"):
+            if j.get("op") in ("reset", "areset", "greset", "sreset"):
                 if cur:
                     runs.append(cur)
                 cur = [l]
@@ -260,3 +260,54 @@ def cached_model_refutation(name, module, cfg, tier, invariant, workers=4, timeo
     st = {"cfg": cfg, "module": module, "refuted": invariant, "dt": round(res["dt"], 1)}
     json.dump(st, open(p, "w"))
     return st
+
+
+def record_skip(seed, nvalues, vectors=None):
+    """`drive skiptrace`: iteration events of the unchecked reader's iterative skipper (hook verif_skip).
+    Returns (trace path, crashes): a death of the driver inside the code under test is an observation; the run that was in
+    flight (its `sreset` line carries the input) is cut out and the driver resumes behind it."""
+    out = os.path.join(c.OUT, f"skiptrace-{seed}-{nvalues}-{os.getpid()}.ndjson")
+    if os.path.exists(out):
+        os.remove(out)
+    crashes, start = [], 0
+    while True:
+        cmd = [c.hbin("drive"), "skiptrace", str(seed), str(nvalues), out, vectors or "-", str(start)]
+        rc, o, dt = c.run(cmd, timeout=1800)
+        if rc == 0:
+            break
+        lines = [l for l in open(out).read().split("\n") if l.strip()] if os.path.exists(out) else []
+        last = max([i for i, l in enumerate(lines) if '"op":"sreset"' in l], default=None)
+        if last is None or any('"op":"sdone"' in l for l in lines[last:]):
+            raise c.ToolError("drive skiptrace failed outside a skip call:\n" + o[-3000:])
+        head = json.loads(lines[last])
+        crashes.append({"input": head["input"][:400], "t": head["t"], "n": head["n"], "tree_index": head["run"],
+                        "iterations_logged": len(lines) - last - 1, "death": o.strip()[-300:]})
+        open(out, "w").write("\n".join(lines[:last]) + ("\n" if last else ""))
+        start = head["run"] + 1
+        if len(crashes) > 50:
+            break
+    return out, crashes
+
+
+def skip_trace_check(rep, tier, seed, vsets=("universe", "deep")):
+    """Record the skipper on the TLC vectors and on seeded random trees, validate against IterSkip; exhaustive model check of
+    IterSkip itself.  Returns a coverage dict; rejections are reported on `rep`."""
+    mc = cached_model_check("iterskip", "MCIterSkip", "MCIterSkip.cfg", tier, workers=6)
+    total = {"events_validated": 0, "runs_validated": 0, "rejections": 0, "model": mc}
+    n = 300 if tier == "quick" else 20000
+    for k, vs in enumerate(list(vsets) + [None]):
+        vec = vectors(tier, vs)[0] if vs else None
+        tp, crashes = record_skip(seed + 7 + k, n if vs is None else 0, vec)
+        for cr in crashes:
+            rep.violation({"check": "skip-crash", "proto": "unsafe", "op": "skip", "tt": cr["t"]}, dict(cr, source=vs or "seeded random trees"))
+        total["crashes"] = total.get("crashes", 0) + len(crashes)
+        events, runs, rejections, crashed = validate_trace(tp, module="IterSkipTrace")
+        os.remove(tp)
+        total["events_validated"] += events
+        total["runs_validated"] += runs
+        total["rejections"] += len(rejections)
+        for r in rejections:
+            ev = r["event"]
+            rep.violation({"check": "skip-trace-rejected", "proto": "unsafe", "op": ev.get("op"), "tt": ev.get("tt", ev.get("ret"))},
+                          {"source": vs or "seeded random trees", "rejected_at": r["line_in_run"], "event": ev, "run": r["run_lines"][:40]})
+    return total
